@@ -115,7 +115,22 @@ func (_this *Session) GetBuilderGeneratorForType(dstType reflect.Type) BuilderGe
 		return storedBuilderGenerator.(BuilderGenerator)
 	}
 
+	completed := false
+	defer func() {
+		if !completed {
+			// Generation failed (unsupported type): do not leave the placeholder
+			// behind, and make anyone waiting on it fail the same way instead of
+			// waiting forever.
+			err := recover()
+			_this.builderGenerators.Delete(dstType)
+			builderGenerator = func(*Context) Builder { panic(err) }
+			wg.Done()
+			panic(err)
+		}
+	}()
+
 	builderGenerator = _this.defaultBuilderGeneratorForType(dstType)
+	completed = true
 	wg.Done()
 	_this.builderGenerators.Store(dstType, builderGenerator)
 	return builderGenerator
